@@ -572,6 +572,7 @@ class Program:
         # calls about which the property says nothing are probes: the result is compared, the object kept
         token = ("C;" if what == "valid" else "c;") + enc_pos(pargs) + ";" + enc_kw([(k, kwargs[k]) for k, _ in kw])
         before = _snap(pargs, kwargs)
+        pre_consts = _const_snapshot(obj)          # constants of the object's densities BEFORE the call (see finish())
         try:
             with quiet():
                 new = obj(*pargs, **kwargs)
@@ -595,7 +596,7 @@ class Program:
                     if isinstance(a, np.ndarray) and a.flags.writeable and a.ndim >= 1:
                         self.buffers[n] = a
             if self.scribbled is None and self.rng.random() < 0.3:
-                self.kept.append((obj, dict(self.fixed), self.remaining(), _const_snapshot(obj)))
+                self.kept.append((obj, dict(self.fixed), self.remaining(), pre_consts))
         if what == "double" and ok:
             rem = self.remaining()
             if any(k in rem[:len(pos)] for k, _ in kw):      # a keyword names a parameter occupied by a positional value
